@@ -650,14 +650,25 @@ func runTierB(self, out, repo, harnessDir string, rng *vh.RNG, nDesigns, nVals i
 	}
 	// a projection that does not terminate is a fatal error: generating code for such a design
 	// would kill this process, so every candidate is projected in a child process first
-	alive := screenPools(self, filepath.Join(out, "screen"), cand)
+	alive, died := screenPools(self, filepath.Join(out, "screen"), repo, cand)
 	for i, p := range cand {
 		if len(pools) >= over {
 			break
 		}
 		if !alive[i] {
+			if strings.HasPrefix(died[i], "<generate>") {
+				// a code generator (not expr.Project) died on the design: not C08's business
+				// (OpenAPI / service generators on recursive types); the design is left out
+				res.Count("tierB_design_skipped_generator_fatal_error")
+				bs, _ := json.Marshal(p)
+				res.Extra["tierB_generator_fatal_error_design"] = string(bs)
+				if strings.HasPrefix(p.Tag, "corpus") {
+					failSig(res, "corpus-design-kills-generator", "goa's code generators die on a corpus design", map[string]any{"stream": "tierB/screen", "pool": p})
+				}
+				continue
+			}
 			res.Count("tierB_design_skipped_projection_does_not_terminate")
-			failSig(res, "project-nonterminating", "expr.Project does not terminate (or fails) on a view of this accepted design; it was left out of tier B", map[string]any{"stream": "tierB/screen", "pool": p})
+			failSig(res, "project-nonterminating", "expr.Project("+died[i]+") does not terminate on this accepted design; it was left out of tier B", map[string]any{"stream": "tierB/screen", "pool": p})
 			continue
 		}
 		d := p.design(fmt.Sprintf("v%d", i))
@@ -1021,7 +1032,7 @@ func clientFailure(ob *rt.Obs) string {
 
 // screenPools projects every result type of every pool under every view in a child process
 // and reports the pools on which all projections came back.
-func screenPools(self, dir string, pools []*Pool) []bool {
+func screenPools(self, dir, repo string, pools []*Pool) (alive []bool, died map[int]string) {
 	os.MkdirAll(dir, 0o755)
 	plan := make([][]ProjObs, len(pools))
 	for i, p := range pools {
@@ -1044,14 +1055,21 @@ func screenPools(self, dir string, pools []*Pool) []bool {
 	os.WriteFile(pf+".names", nb, 0o644)
 	of := filepath.Join(dir, "obs.jsonl")
 	os.Remove(of)
-	alive := make([]bool, len(pools))
+	alive = make([]bool, len(pools))
+	died = map[int]string{}
+	gen := filepath.Join(dir, "gen")
+	if err := dg.WriteModule(gen, "tb", repo, ""); err != nil {
+		gen = ""
+	}
 	from := 0
 	for tries := 0; from < len(pools) && tries < len(pools)+2; tries++ {
 		ctx, cancel := context.WithTimeout(context.Background(), childBudget(len(pools)-from))
-		cmd := exec.CommandContext(ctx, self, "-child", "tiera", "-pools", pf, "-childout", of, "-from", fmt.Sprint(from))
+		cmd := exec.CommandContext(ctx, self, "-child", "tiera", "-pools", pf, "-childout", of, "-from", fmt.Sprint(from), "-gendir", gen, "-repo", repo)
+		cmd.Env = os.Environ()
 		err := cmd.Run()
 		cancel()
 		last, done := from-1, map[int]bool{}
+		lastBegin := ""
 		if f, e := os.Open(of); e == nil {
 			sc := bufio.NewScanner(f)
 			sc.Buffer(make([]byte, 1<<20), 1<<26)
@@ -1062,6 +1080,9 @@ func screenPools(self, dir string, pools []*Pool) []bool {
 				}
 				if l.Pool > last {
 					last = l.Pool
+				}
+				if l.Kind == "begin" {
+					lastBegin = l.Type + "/" + l.View
 				}
 				if l.Kind == "pool" || l.Kind == "rejected" { // rejected by the DSL: b.Add reports it
 					done[l.Pool] = true
@@ -1077,7 +1098,10 @@ func screenPools(self, dir string, pools []*Pool) []bool {
 		if err == nil {
 			break
 		}
+		if last >= 0 && last < len(pools) && !done[last] {
+			died[last] = lastBegin
+		}
 		from = last + 1 // the pool that was running when the child died stays dead
 	}
-	return alive
+	return alive, died
 }
